@@ -242,7 +242,7 @@ func evalScript(c *vt.C, s *Script, each func(p PathSpec, si *shapeInfo, nonEmpt
 				continue
 			}
 			for k := range op {
-				if !markerPath(p, op[k].label, si) || op[k].label == "err" || op[k].label != outs1[i][k].label {
+				if !markerPath(p, op[k].label, si) || op[k].label == "err" || op[k].scanOnly() || op[k].label != outs1[i][k].label {
 					continue
 				}
 				checked = true
